@@ -184,6 +184,9 @@ type runCfg struct {
 	Threads  int
 	Validate bool
 	Chunk    int
+	// MetaIssue is the walker's verdict on the metadata value of a VNG-looking
+	// input (nil when consistent or not VNG); see the panic attribution below.
+	MetaIssue *oracle.Issue
 }
 
 func (c runCfg) String() string {
@@ -383,7 +386,22 @@ func runOnce(input []byte, cfg runCfg, rep *reporter) *runResult {
 	}
 	if p != nil {
 		res.panicked = true
-		rep.report("C11/panic@"+p.site(), "%s: panic escaped the reader (phase %s, reader %q) after %d values\n%s", cfg, phase, res.reader, res.values, p.text())
+		sig := "C11/panic@" + p.site()
+		if is := cfg.MetaIssue; is != nil && strings.HasSuffix(sig, "[unmarshal-of-unvalidated-value]") {
+			// vng.readMetadata validates the metadata value before unmarshaling
+			// it (since 0a0cf401a); when the unmarshaler still panics on a value
+			// that the walker finds inconsistent, the cause is the check that
+			// Value.Validate lacks for that class, not a missing validation.
+			vsig := "C11/zng/validate-misses-" + is.Class
+			if is.InSet && vt.IsKnown("C11/zng/validate-skips-set-interior") {
+				vsig = "C11/zng/validate-skips-set-interior"
+			}
+			if vt.IsKnown(vsig) {
+				rep.report(vsig, "")
+				return res
+			}
+		}
+		rep.report(sig, "%s: panic escaped the reader (phase %s, reader %q) after %d values\n%s", cfg, phase, res.reader, res.values, p.text())
 		return res
 	}
 	kind := res.reader
@@ -576,13 +594,13 @@ func maxAnnouncedSize(b []byte) uint64 {
 	return m
 }
 
-func vngPreflight(meta []byte, rep *reporter) (ok bool) {
+func vngPreflight(meta []byte, rep *reporter) (ok bool, metaIssue *oracle.Issue) {
 	ok = true
 	if vt.IsKnown("C11/alloc/vng/big-blocks") && maxAnnouncedSize(meta) > 48<<20 {
 		// (listed: readMetadata's reader would allocate what the frame header
 		// announces, up to 1 GiB + 25%; do not do that in every such case)
 		rep.report("C11/alloc/vng/big-blocks", "")
-		return false
+		return false, nil
 	}
 	var val *zed.Value
 	zctx := zed.NewContext()
@@ -617,12 +635,13 @@ func vngPreflight(meta []byte, rep *reporter) (ok bool) {
 		}
 	}); p != nil {
 		rep.report("C11/panic@"+p.site(), "VNG metadata section (decoded by vng.readMetadata with a threaded zngio reader: this panic kills the process there): %s", p.text())
-		return false
+		return false, nil
 	}
 	if val == nil {
-		return true
+		return true, nil
 	}
 	checkAlloc("C11/alloc/vng", "decoding the metadata section the way vng.readMetadata does (zngio reader with default options, Max = 1 GiB)")
+	metaIssue = oracle.CheckValue(*val)
 	if oracle.HasNullUnion(*val) && vt.IsKnown("C11/fatal-stack-overflow@/zson.(*UnmarshalZNGContext).lookupGoType[null-union]") {
 		// (Only while C11-unmarshal-null-union is listed as open.  With the
 		// finding closed the object goes to the reader like any other: a
@@ -649,7 +668,7 @@ func vngPreflight(meta []byte, rep *reporter) (ok bool) {
 				"\"fatal error: sync: Unlock of unlocked RWMutex\" (deferred mu.Unlock while the lock is released around DecodeTypeValue) and kills the process\n%s", tv, p.text())
 		}
 	}
-	return ok
+	return ok, metaIssue
 }
 
 // Once C11/alloc/vng is a listed finding (the VNG reader trusts the segment
